@@ -1705,6 +1705,268 @@ fn emit(ctx: &mut Ctx, fam: &'static str, fixed: Option<Input>) {
     });
 }
 
+// ---------------------------------------------------------------------------------------------
+// family `ip`: the iterator-side adapters on PARTIAL event streams
+//
+// `iterator::Transformed` / `Flattened` are adapters over ANY `Iterator<Item = PathEvent>`, not
+// only over the complete stream of a well-formed path: events may have been taken out of the
+// iterator before the adapter is attached (`let mut it = path.iter(); it.next(); it.transformed(..)`),
+// or removed upstream of it (`skip`, `filter`, `take`, `chain`).  Their contract on such a stream:
+// `Transformed` is a per-event map (`out[i] = in[i].transformed(m)`), `Flattened` replaces each
+// curve event by the flattening of THAT event's own `from / ctrl / to` and passes every other
+// event through - no state is carried from one event to the next.
+
+#[derive(Clone, Copy, Debug, PartialEq)]
+enum Mode {
+    Whole,
+    /// `let mut it = path.iter(); k x it.next(); it.<adapter>` (also `iter_with_attributes`)
+    Resume(usize),
+    /// `path.iter().skip(k)`
+    Skip(usize),
+    /// `path.iter().filter(|e| e.is_edge())`
+    Edges,
+    /// `path.iter().skip(k).take(j)`
+    Range(usize, usize),
+    /// `path.iter().skip(k).chain(path.iter().take(j))`
+    Chain(usize, usize),
+}
+
+impl Mode {
+    fn name(&self) -> &'static str {
+        match self {
+            Mode::Whole => "whole",
+            Mode::Resume(_) => "resume-after-next",
+            Mode::Skip(_) => "skip",
+            Mode::Edges => "edges-only",
+            Mode::Range(..) => "sub-range",
+            Mode::Chain(..) => "chained",
+        }
+    }
+    /// the indices of the whole stream (length `l`) the partial stream consists of
+    fn select(&self, whole: &[Ev]) -> Vec<usize> {
+        let l = whole.len();
+        match *self {
+            Mode::Whole => (0..l).collect(),
+            Mode::Resume(k) | Mode::Skip(k) => (k.min(l)..l).collect(),
+            Mode::Edges => (0..l).filter(|i| matches!(&whole[*i], Ev::L(..) | Ev::Q(..) | Ev::C(..) | Ev::E(_, _, true))).collect(),
+            Mode::Range(k, j) => (k.min(l)..(k + j).min(l)).collect(),
+            Mode::Chain(k, j) => (k.min(l)..l).chain(0..j.min(l)).collect(),
+        }
+    }
+}
+
+fn partial<'a>(path: &'a Path, mode: Mode) -> Box<dyn Iterator<Item = PathEvent> + 'a> {
+    match mode {
+        Mode::Whole => Box::new(path.iter()),
+        Mode::Resume(k) => {
+            let mut it = path.iter();
+            for _ in 0..k {
+                it.next();
+            }
+            Box::new(it)
+        }
+        Mode::Skip(k) => Box::new(path.iter().skip(k)),
+        Mode::Edges => Box::new(path.iter().filter(|e| e.is_edge())),
+        Mode::Range(k, j) => Box::new(path.iter().skip(k).take(j)),
+        Mode::Chain(k, j) => Box::new(path.iter().skip(k).chain(path.iter().take(j))),
+    }
+}
+
+fn map_ev(e: &Ev, f: &dyn Fn(Point) -> Point) -> Ev {
+    let g = |a: &AP| (f(a.0), a.1.clone());
+    match e {
+        Ev::B(a) => Ev::B(g(a)),
+        Ev::L(a, b) => Ev::L(g(a), g(b)),
+        Ev::Q(a, c, b) => Ev::Q(g(a), f(*c), g(b)),
+        Ev::C(a, c, d, b) => Ev::C(g(a), f(*c), f(*d), g(b)),
+        Ev::E(l, fi, cl) => Ev::E(g(l), g(fi), *cl),
+    }
+}
+
+fn strip_ev(e: &Ev) -> Ev {
+    let z = |a: &AP| (a.0, vec![]);
+    match e {
+        Ev::B(a) => Ev::B(z(a)),
+        Ev::L(a, b) => Ev::L(z(a), z(b)),
+        Ev::Q(a, c, b) => Ev::Q(z(a), *c, z(b)),
+        Ev::C(a, c, d, b) => Ev::C(z(a), *c, *d, z(b)),
+        Ev::E(l, f, cl) => Ev::E(z(l), z(f), *cl),
+    }
+}
+
+fn ev_curve(e: &Ev) -> Option<Curve> {
+    match e {
+        Ev::Q(a, c, b) => Some(Curve::Q(a.0, *c, b.0)),
+        Ev::C(a, c, d, b) => Some(Curve::C(a.0, *c, *d, b.0)),
+        _ => None,
+    }
+}
+
+/// the contract of `iterator::Flattened` on any (plain) event list
+fn flat_ref(evs: &[Ev], tol: f32) -> Vec<Ev> {
+    let mut out = vec![];
+    for e in evs {
+        match ev_curve(e) {
+            None => out.push(e.clone()),
+            Some(c) => {
+                let mut from = c.pts()[0];
+                for q in geom_iter(&c, tol) {
+                    out.push(Ev::L((from, vec![]), (q, vec![])));
+                    from = q;
+                }
+            }
+        }
+    }
+    out
+}
+
+fn cmp_evs(orc: &mut Oracle, clause: &str, what: &str, got: &[Ev], want: &[Ev]) {
+    orc.check(got.len() == want.len(), clause, "generic", || format!("{}: {} events out, {} expected", what, got.len(), want.len()));
+    for (i, (g, w)) in got.iter().zip(want).enumerate() {
+        orc.check(g == w, clause, "generic", || format!("{}: event {}: got {:?}, the adapter's contract on this event gives {:?}", what, i, g, w));
+    }
+}
+
+fn emit_ip(ctx: &mut Ctx, fixed: Option<(Input, Mode)>) {
+    ctx.case("ip", |rng| {
+        let (inp, mode) = match fixed {
+            Some(x) => x,
+            None => {
+                let inp = gen_input(rng);
+                let l = 2 + inp.prog.len();
+                let k = 1 + rng.below(l as u64) as usize;
+                let j = rng.below(l as u64 + 2) as usize;
+                let mode = match rng.below(12) {
+                    0 => Mode::Whole,
+                    1..=3 => Mode::Resume(k),
+                    4 | 5 => Mode::Skip(k),
+                    6 | 7 => Mode::Edges,
+                    8 | 9 => Mode::Range(k, j),
+                    _ => Mode::Chain(k, j),
+                };
+                (inp, mode)
+            }
+        };
+        let (n, tol, m) = (inp.n, inp.tol, inp.m);
+        let path = vh::guarded(|| build_path(n, &inp.cmds)).unwrap_or_else(|| Path::new());
+        let whole = evs_with_attrs(&path);
+        let sel = mode.select(&whole);
+        let aevs: Vec<Ev> = sel.iter().map(|i| whole[*i].clone()).collect();
+        let evs: Vec<Ev> = aevs.iter().map(strip_ev).collect();
+        let with_a = matches!(mode, Mode::Resume(_) | Mode::Whole);
+        let xf = move |p: Point| m.transform_point(p);
+        // CASE: the event list itself (the model takes arbitrary event lists)
+        let mut args = Out::new();
+        args.u(n as u64).f(tol);
+        args.f(m.m11).f(m.m12).f(m.m21).f(m.m22).f(m.m31).f(m.m32);
+        args.t(if with_a { "S" } else { "G" });
+        put_evs(&mut args, &aevs);
+        let curves: Vec<Curve> = evs.iter().filter_map(ev_curve).collect();
+        let xcurves: Vec<Curve> = evs.iter().map(|e| map_ev(e, &xf)).filter_map(|e| ev_curve(&e)).collect();
+        if with_a {
+            for c in &curves {
+                args.t("|").t(if c.is_cubic() { "FC" } else { "FQ" });
+                for p in c.pts() {
+                    args.p(p);
+                }
+                let segs = vh::guarded(|| geom_cb(c, tol)).unwrap_or_default();
+                args.u(segs.len() as u64);
+                for s in segs {
+                    args.p(s.0).p(s.1).f(s.2);
+                }
+            }
+        }
+        for c in curves.iter().chain(xcurves.iter()) {
+            args.t("|").t(if c.is_cubic() { "IC" } else { "IQ" });
+            for p in c.pts() {
+                args.p(p);
+            }
+            let pts = vh::guarded(|| geom_iter(c, tol)).unwrap_or_default();
+            args.u(pts.len() as u64);
+            for q in pts {
+                args.p(q);
+            }
+        }
+        let has_begin_first = matches!(evs.first(), Some(Ev::B(_)) | None);
+        let tag = format!("ip {} {}{} {}", mode.name(), if has_begin_first { "starts-at-begin" } else { "starts-inside-subpath" }, if evs.is_empty() { " trivial empty" } else { "" }, inp.tag);
+        (args, tag, move || {
+            let mut o = Out::new();
+            let mut orc = Oracle::new();
+            let real: Vec<Ev> = partial(&path, mode).map(ev_plain).collect();
+            orc.check(real == evs, "harness/selection", "generic", || format!("partial stream {:?} differs from the selected events", mode));
+            let t: Vec<Ev> = partial(&path, mode).transformed(&m).map(ev_plain).collect();
+            let f: Vec<Ev> = partial(&path, mode).flattened(tol).map(ev_plain).collect();
+            let tf: Vec<Ev> = partial(&path, mode).transformed(&m).flattened(tol).map(ev_plain).collect();
+            let ft: Vec<Ev> = partial(&path, mode).flattened(tol).transformed(&m).map(ev_plain).collect();
+            o.t("t");
+            put_evs(&mut o, &t);
+            o.t("f");
+            put_evs(&mut o, &f);
+            o.t("tf");
+            put_evs(&mut o, &tf);
+            o.t("ft");
+            put_evs(&mut o, &ft);
+            let want_t: Vec<Ev> = evs.iter().map(|e| map_ev(e, &xf)).collect();
+            let want_f = flat_ref(&evs, tol);
+            cmp_evs(&mut orc, "iter.transform/per-event", "transformed", &t, &want_t);
+            cmp_evs(&mut orc, "iter.flatten/per-event", "flattened", &f, &want_f);
+            cmp_evs(&mut orc, "iter.nesting/per-event", "transformed then flattened", &tf, &flat_ref(&want_t, tol));
+            let want_ft: Vec<Ev> = want_f.iter().map(|e| map_ev(e, &xf)).collect();
+            cmp_evs(&mut orc, "iter.nesting/per-event", "flattened then transformed", &ft, &want_ft);
+            if with_a {
+                // `for_each_flattened` resumed after `k` events were taken out of the iterator
+                let mut a: Vec<Ev> = vec![];
+                let mut it = path.iter_with_attributes();
+                if let Mode::Resume(k) = mode {
+                    for _ in 0..k {
+                        it.next();
+                    }
+                }
+                it.for_each_flattened(tol, &mut |e| a.push(ev_attr(e)));
+                o.t("a");
+                put_evs(&mut o, &a);
+                // per event: a curve becomes lyon_geom's callback segments, the attributes of the
+                // inserted points interpolated between THIS event's endpoints
+                let mut k = 0usize;
+                for (i, e) in aevs.iter().enumerate() {
+                    match ev_curve(e) {
+                        None => {
+                            orc.check(a.get(k) == Some(e), "iter.for-each-flattened/per-event", "generic", || format!("event {} {:?} must pass through, got {:?}", i, e, a.get(k)));
+                            k += 1;
+                        }
+                        Some(c) => {
+                            let (fa, ta) = match e {
+                                Ev::Q(x, _, y) | Ev::C(x, _, _, y) => (x.1.clone(), y.1.clone()),
+                                _ => unreachable!(),
+                            };
+                            let segs = geom_cb(&c, tol);
+                            let mut prev = fa.clone();
+                            for (j, s) in segs.iter().enumerate() {
+                                match a.get(k + j) {
+                                    Some(Ev::L(x, y)) => {
+                                        let ok = x.0 == s.0 && y.0 == s.1 && attrs_eq(&x.1, &prev) && interp_ok(&y.1, &fa, &ta, s.2);
+                                        orc.check(ok, "iter.for-each-flattened/per-event", "generic", || format!("event {} ({:?}) segment {}: got {:?} -> {:?}, expected {:?} -> {:?} at t={} between {:?} and {:?}", i, c, j, x, y, s.0, s.1, s.2, fa, ta));
+                                        prev = y.1.clone();
+                                    }
+                                    g => orc.check(false, "iter.for-each-flattened/per-event", "generic", || format!("event {} segment {}: got {:?}", i, j, g)),
+                                }
+                            }
+                            k += segs.len();
+                        }
+                    }
+                    if orc.failed() {
+                        break;
+                    }
+                }
+                if !orc.failed() {
+                    orc.check(k == a.len(), "iter.for-each-flattened/per-event", "generic", || format!("{} events out, {} expected", a.len(), k));
+                }
+            }
+            CaseOut { imp: o, orcl: orc.verdict }
+        })
+    });
+}
+
 fn main() {
     let mut ctx = Ctx::from_args("C16");
     // witnesses
@@ -1849,6 +2111,22 @@ fn main() {
             }
         }
     }
+    // partial streams: fixed witnesses (the adapter does not see the Begin of the sub-path)
+    {
+        let prog = vec![
+            Op::B(p(1., 2.), vec![1.]),
+            Op::L(p(4., 2.), vec![2.]),
+            Op::Q(p(6., 6.), p(1., 5.), vec![3.]),
+            Op::E(true),
+            Op::B(p(-3., 0.), vec![4.]),
+            Op::C(p(-3., 4.), p(1., 4.), p(1., 0.), vec![5.]),
+            Op::E(false),
+        ];
+        for mode in [Mode::Resume(1), Mode::Resume(2), Mode::Skip(1), Mode::Skip(5), Mode::Edges, Mode::Range(2, 3), Mode::Chain(5, 3), Mode::Whole] {
+            let inp = Input::new(1, 0.05, Transform::new(0.0, 1.0, -1.0, 0.0, 3.0, -2.0), prims(&prog), "witness partial-stream".to_string());
+            emit_ip(&mut ctx, Some((inp, mode)));
+        }
+    }
     let k = ctx.n(2000, 25000);
     for _ in 0..k {
         for fam in ["bf", "bt", "bn", "na", "pb", "it", "ix", "in"] {
@@ -1856,6 +2134,7 @@ fn main() {
         }
         emit(&mut ctx, "e2e", None);
         emit(&mut ctx, "sim", None);
+        emit_ip(&mut ctx, None);
     }
     ctx.finish();
 }
